@@ -34,14 +34,20 @@ def max_gram(req_fields):
     return max(abs(sum(x * y for x, y in zip(cols[i], cols[j]))) for i in range(3) for j in range(3))
 
 
+DELAUNAY_DEFECT_ITEMS = ("det-T=0", "det-T=2", "det-T=-2", "degenerate", "idempotence-lengths")
+
+
 def finding_key(req, verdict):
     """Stable key of a failing oracle verdict (None = not a recognised known-finding class)."""
     p = req.split(" ")
     cmd = p[0]
+    items = [x.strip() for x in verdict[len("fails:"):].split(",")] if verdict.startswith("fails:") else [verdict]
     if cmd in ("c14-check", "c14-idem") and p[1] == "del":
-        # everything the pinned Delaunay selection breaks: det T in {0, +-2}, degenerate output, lengths not invariant
-        if "det-T" in verdict or "degenerate" in verdict or "idempotence" in verdict:
+        # exactly what the pinned Delaunay selection breaks: det T in {0, +-2}, hence a degenerate output whose
+        # lengths are not lattice invariants; any other item (e.g. reduced-ne-basis-T) is a different violation
+        if items and all(it in DELAUNAY_DEFECT_ITEMS for it in items):
             return "delaunay-det"
+        return None
     if cmd == "c14-pair":
         a = req[len("c14-pair "):].split(" ; ")[2].split(" ")
         # |G| so large that the f64 rounding of G (>= 1e-16*|G|*growth) is not below the absolute EPS = 1e-8
@@ -54,6 +60,7 @@ def evaluate(reqs, exps, outs):
     st = collections.Counter()
     tags = collections.Counter()
     t_mismatch, pred_mismatch, failing, panics = [], [], [], []
+    del_mismatch = {"pinned": [], "guarded": []}
     nontrivial = set()
     samples = []
     for i, (q, e0, o) in enumerate(zip(reqs, exps, outs)):
@@ -70,15 +77,24 @@ def evaluate(reqs, exps, outs):
             t_impl, api = [x.strip() for x in e.split("|")]
             st[f"{alg}:{api.split('(')[0]}"] += 1
             f = [x.strip() for x in o.split("|")]
-            if len(f) != 5:
+            if len(f) != (7 if alg == "del" else 5):
                 t_mismatch.append((q, e, o))
                 continue
-            t_model, bad, frag, nsteps, exact = f
+            t_model, bad, frag, nsteps, exact = f[:5]
             stream = "int" if exact == "1" else "float"
             if t_impl != "1 0 0 0 1 0 0 0 1":
                 nontrivial.add(" ".join(p[2:]))
             if bad != "0":
                 st[f"{alg}:{stream}:model-gave-up({bad})"] += 1
+            elif alg == "del":
+                # two modelled variants of the final selection: pinned ("three shortest") and repaired (guarded)
+                for name, tm, fr in (("pinned", t_model, frag), ("guarded", f[5], f[6])):
+                    if fr == "1":
+                        st[f"del-{name}:{stream}:fragile"] += 1
+                    else:
+                        st[f"del-{name}:{stream}:compared"] += 1
+                        if tm != t_impl:
+                            del_mismatch[name].append((q, e, o))
             elif frag == "1":
                 st[f"{alg}:{stream}:fragile"] += 1
             else:
@@ -100,7 +116,14 @@ def evaluate(reqs, exps, outs):
             st[f"oracle-{cmd[4:]}{'-' + p[1] if cmd != 'c14-pair' else ''}"] += 1
             if o != "holds":
                 failing.append((q, o, tag))
-    return {"st": st, "tags": tags, "t_mismatch": t_mismatch, "pred_mismatch": pred_mismatch,
+    # the implementation must be one of the two modelled Delaunay variants on *every* compared case
+    variant = "pinned" if len(del_mismatch["pinned"]) <= len(del_mismatch["guarded"]) else "guarded"
+    t_mismatch += del_mismatch[variant]
+    other = "guarded" if variant == "pinned" else "pinned"
+    for k in list(st):
+        if k.startswith(f"del-{other}:"):
+            del st[k]
+    return {"st": st, "tags": tags, "t_mismatch": t_mismatch, "delaunay_variant": variant, "pred_mismatch": pred_mismatch,
             "failing": failing, "panics": panics, "nontrivial": len(nontrivial), "samples": samples}
 
 
@@ -180,6 +203,7 @@ def run(tier, seed):
     cov["stats"] = dict(ev["st"])
     cov["fragile"] = sum(v for k, v in ev["st"].items() if k.endswith(":fragile"))
     cov["samples"] = ev["samples"]
+    cov["delaunay_variant_matched"] = ev["delaunay_variant"]
     cov["model_impl_T_disagreements"] = len(ev["t_mismatch"])
     cov["model_impl_predicate_disagreements"] = len(ev["pred_mismatch"])
     cov["oracle_failures"] = len(ev["failing"])
